@@ -6,6 +6,7 @@ mod bm;
 mod c07;
 mod c15;
 mod c10;
+mod c04;
 
 use util::*;
 
@@ -30,6 +31,8 @@ fn main() {
     "C15" => c15::run_c15(&mut out, &mut rng, thorough),
     "C09" => c15::run_c09(&mut out, &mut rng, thorough),
     "C10" => c10::run(&mut out, &mut rng, thorough),
+    "C04" => c04::run_c04(&mut out, &mut rng, thorough),
+    "C14" => c04::run_c14(&mut out, &mut rng, thorough),
     "C08" => c07::run_c08(&mut out, &mut rng, thorough),
     _ => { eprintln!("unknown property {}", prop); std::process::exit(2); }
   }
